@@ -29,7 +29,16 @@ def replay(rec, ctx):
     from cherab.core.model import ExcitationLine, RecombinationLine, ThermalCXLine, TotalRadiatedPower, Bremsstrahlung
     rates = (ctx or rec)["rates"]
     calls = EC.Calls()
-    ad = EC.provider(rates, calls)
+    nu0 = EC.nu(rec)
+
+    def expect(tag):
+        ne_, te_ = rec["ne"] * nu0, float(rec["te"])
+        if tag == "gaunt":
+            return (te_, LO, HI)
+        if tag.startswith("tcx:"):
+            return (ne_, te_, float(rec["temp"][tag[4:]]))
+        return (ne_, te_)
+    ad = EC.provider(rates, calls, expect)
     pl = EC.plasma(rec)
     m = rec["model"]
     d, c = EC.element("d"), EC.element("c")
@@ -89,8 +98,18 @@ def replay(rec, ctx):
     elif m == "tcx": want_calls = {("tcx", s, "c6") for s in rec["donors"]}
     elif m == "trp": want_calls = {("plt", "c5"), ("prb", "c6"), ("prc", "c6")}
     elif m == "brems": want_calls = {("gaunt",)}
+    # which coefficients the model fetched and where it evaluated them is not something the statement prescribes: when the
+    # emission itself is right these are recorded as observations; when it is wrong they name the reason
+    wrong_total = bool(viol)
+    notes = []
+
+    def remark(what, detail):
+        if wrong_total:
+            bad(what, detail)
+        else:
+            notes.append({"observation": f"{m}:{what}"})
     if not (got <= want_calls | set(calls.earlier) and want_calls <= got | set(calls.earlier)):
-        bad("provider-asked-for-other-coefficients", f"asked {sorted(got)}, rule prescribes {sorted(want_calls)}")
+        remark("provider-asked-for-other-coefficients", f"asked {sorted(got)}, rule prescribes {sorted(want_calls)}")
     # (T) arguments of the coefficient evaluations: PEC(n_e, T_e), PEC_d(n_e, T_e, T_d), g_ff(Z, T_e, wavelength in the window)
     ne, te = rec["ne"] * nu, float(rec["te"])
     for tag, args in [(x[1], x[2]) for x in calls if x[0] == "eval"]:
@@ -104,9 +123,9 @@ def replay(rec, ctx):
             exp = (ne, te)
             ok = core.close(list(args), list(exp), rtol=1e-12)
         if not ok:
-            bad("coefficient-evaluated-at-wrong-arguments", f"{tag}{args} vs {exp}")
+            remark("coefficient-evaluated-at-wrong-arguments", f"{tag}{args} vs {exp}")
             break
-    return viol
+    return viol + notes
 
 
 CFG = """SPECIFICATION Spec
